@@ -334,14 +334,13 @@ func ruleVALTOTAL(c *Ctx, r *Report) {
 			}
 		}
 	}
-	for _, b := range validate.Blocks {
-		for _, in := range b.Instrs {
-			if call, ok := in.(*ssa.Call); ok && call.Call.StaticCallee() == validate {
-				k := c.key(call.Call.Args[0], nil)
-				if strings.HasSuffix(k, ".Left") {
+	for _, p := range paths {
+		for _, pc := range p.Calls {
+			if pc.Call.Call.StaticCallee() == validate && len(pc.Args) > 0 {
+				if strings.HasSuffix(pc.Args[0], ".Left") {
 					recL = true
 				}
-				if strings.HasSuffix(k, ".Right") {
+				if strings.HasSuffix(pc.Args[0], ".Right") {
 					recR = true
 				}
 			}
@@ -368,9 +367,9 @@ func ruleVALTOTAL(c *Ctx, r *Report) {
 			}
 			rv := c.resolve(p.Ret.Results[0], p.Env)
 			var calls []string
-			for _, in := range p.Instrs {
-				if call, ok := in.(*ssa.Call); ok && call.Call.StaticCallee() == validate {
-					calls = append(calls, c.key(call.Call.Args[0], p.Env))
+			for _, pc := range p.Calls {
+				if pc.Call.Call.StaticCallee() == validate && len(pc.Args) > 0 {
+					calls = append(calls, pc.Args[0])
 				}
 			}
 			l, rr := false, false
